@@ -13,3 +13,5 @@ for p in "$@"; do
 done
 git checkout -- . 
 cd /verif/harness && cargo build --offline >/dev/null 2>&1
+# the generated Lean files must describe the restored tree again
+mkdir -p /verif/work && /verif/harness/target/debug/mtharness tables /verif/work/tables.txt >/dev/null 2>&1 && python3 /verif/tools/gen_tables.py /verif/work/tables.txt /verif/lean/Memterm/Generated/Tables.lean >/dev/null
